@@ -105,8 +105,8 @@ func c14RunCell(c c14Cell) (out c14Outcome) {
 
 	points := c14AdminPoints[c.Admin]
 	n := len(points)
-	adminAt := make(chan int, 16)    // admin reports the index (1-based) of the point it reached
-	adminGo := make(chan struct{})   // release admin from its current point
+	adminAt := make(chan int, 16)      // admin reports the index (1-based) of the point it reached
+	adminGo := make(chan struct{})     // release admin from its current point
 	writerAt := make(chan struct{}, 1) // writer reports that it is parked at its journal point
 	writerGo := make(chan struct{})
 	jp := c14JournalPoint[c.Op]
